@@ -189,6 +189,14 @@ def nact? (allowed : String) (w : String) : Option Net.Act :=
   if w == "stop" then (if allowed.contains 'p' then some .stop else none)
   else if w == "start" then (if allowed.contains 't' then some .start else none)
   else if w == "disc" then (if allowed.contains 'd' then some .disc else none)
+  else if w == "cleanup" then (if allowed.contains 'c' then some .cleanup else none)
+  else if w == "shut" then (if allowed.contains 'h' then some .shut else none)
+  else if w.startsWith "m:" then
+    (if allowed.contains 'm' then
+      match bytesOfHex (w.drop 2).toString with
+      | some d => if d.length ≤ 64 then some (.more d) else none
+      | none => none
+     else none)
   else if w.startsWith "s:" then
     (if allowed.contains 's' then
       match bytesOfHex (w.drop 2).toString with
@@ -225,9 +233,16 @@ def parse (ws : List String) : Option Net.Op :=
   | ["nssend", k, d] => do pure (.svSend (← small? k 16) (← data? d true))
   | ["nsdisc", k] => do pure (.svDisc (← small? k 16))
   | ["nsvalid", k] => do pure (.svValid (← small? k 16))
+  | ["nsshut", k] => do pure (.svShut (← small? k 16))
+  | ["ncshut", i] => do pure (.clShut (← small? i 2))
+  | ["nbudget", k] => do pure (.budget (← small? k 9))
+  | ["nfault", kind, k] => do
+      let k ← small? k 9
+      if kind == "socket" then pure (.fault 0 k) else if kind == "accept" then pure (.fault 1 k)
+      else if kind == "late" then pure (.fault 2 k) else if kind == "inprog" then pure (.fault 3 k) else none
   | ["nscb", w, sc] => do
       let w ← which? w
-      pure (.svScript w (← nscript? (if w = 3 then "pd" else "pds") sc))
+      pure (.svScript w (← nscript? (if w = 3 then "pdchm" else "pdschm") sc))
   | ["ncinit", i] => do pure (.clInit (← small? i 2))
   | ["ncstart", i] => do pure (.clStart (← small? i 2))
   | ["ncstop", i] => do pure (.clStop (← small? i 2))
@@ -236,13 +251,13 @@ def parse (ws : List String) : Option Net.Op :=
   | ["ncsend", i, d] => do pure (.clSend (← small? i 2) (← data? d true))
   | ["nccb", i, w, sc] => do
       let w ← which? w
-      pure (.clScript (← small? i 2) w (← nscript? (if w = 0 ∨ w = 1 then "pts" else "pt") sc))
+      pure (.clScript (← small? i 2) w (← nscript? (if w = 0 ∨ w = 1 then "ptschm" else "ptchm") sc))
   | ["nkinit", n] => do pure (.knInit (← small? n 6))
   | ["nkstart"] => some .knStart
   | ["nkstop"] => some .knStop
   | ["nkcleanup"] => some .knCleanup
   | ["nkcb", w, sc] => do
-      let sc ← nscript? "p" sc
+      let sc ← nscript? "pc" sc
       if w == "fail" then pure (.knScript 0 sc) else if w == "conn" then pure (.knScript 1 sc) else none
   | ["nrconn"] => some .rawConn
   | ["nrsend", d] => do pure (.rawSend (← data? d false))
@@ -305,6 +320,15 @@ def tags (n n' : N) (op : Net.Op) : List String :=
   (if has (fun e => e == .svStop) && (match op with | .svStop => false | .svCleanup => false | _ => true) then ["net-stop-in-callback"] else []) ++
   (if has (fun e => match e with | .clStart _ => true | _ => false) && (match op with | .clStart _ => false | _ => true) then ["net-reconnect"] else []) ++
   (if has (fun e => e == .knFailed) then ["net-connect-failed"] else []) ++
+  (if n'.sockFail < n.sockFail then ["net-socket-fail"] else []) ++
+  (if n'.acceptFail < n.acceptFail then ["net-accept-fail"] else []) ++
+  (if n'.lateFail < n.lateFail then ["net-late-fail"] else []) ++
+  (if n'.budget < n.budget then ["net-send-more"] else []) ++
+  (if (n'.links.zip n.links).any (fun (a, b) => (a.cShut && !b.cShut) || (a.sShut && !b.sShut)) then ["net-shutdown"] else []) ++
+  (if (n.sv.st != .none && n'.sv.st == .none && (match op with | .svCleanup => false | _ => true)) ||
+      ([0, 1].any fun i => (n.client i).st != .none && (n'.client i).st == .none && (match op with | .clCleanup _ => false | _ => true)) ||
+      (n.kn.st != .none && n'.kn.st == .none && (match op with | .knCleanup => false | _ => true))
+   then ["net-cleanup-in-callback"] else []) ++
   ["net"]
 
 def stepLine (n : N) (ws : List String) : N × List String :=
@@ -342,7 +366,7 @@ def stepLine (s : S) (line : String) : S × List String :=
          "M armed=" ++ b01 s'.writeArmed ++ " ron=" ++ b01 s'.readOn ++ " sq=" ++ toString s'.sendQ.length])
 
 def isNetOp (w : String) : Bool :=
-  w.length ≥ 2 ∧ w.startsWith "n" ∧ "sckra".contains (w.toList.getD 1 ' ')
+  w.length ≥ 2 ∧ w.startsWith "n" ∧ "sckrabf".contains (w.toList.getD 1 ' ')
 
 def stepBoth (st : S × Net.N) (line : String) : (S × Net.N) × List String :=
   match words line with
